@@ -472,7 +472,7 @@ def Honest : Memo → World → List Event → Prop
 /-- every `state()` of the history on an existing file returns the digest of the file's bytes at that moment -/
 def AllCorrect : Memo → World → List Event → Prop
   | _, _, [] => True
-  | m, W, .edit W' :: es => AllCorrect m W' es
+  | m, _, .edit W' :: es => AllCorrect m W' es
   | m, W, .state p :: es =>
       (∀ mh c, W p = some (mh, c) → (stateOfFile sha md5 m p (W p)).2 = some (sha c))
         ∧ AllCorrect (stateOfFile sha md5 m p (W p)).1 W es
@@ -487,5 +487,22 @@ theorem covHist_head (S S₂ : Bytes → Prop) (W : World) (es : List Event) (h 
     | state p => exact ih W h
 
 end
+
+/-! ### toy digests (used only to refute `_full` statements and in non-vacuity examples) -/
+
+/-- two values, told apart on the one byte string that matters (`"123"`). -/
+def toySha (x : Bytes) : Str := if x = [49, 50, 51] then List.replicate 64 '0' else List.replicate 64 '1'
+
+/-- length, a prefix and a suffix of the bytes as characters, padded to 64: has length 64 and is
+collision-free on the small sets of the examples. -/
+def padSha (x : Bytes) : Str :=
+  let s := x.map fun b => Char.ofNat b.toNat
+  (decNat x.length ++ '|' :: s.take 28 ++ '|' :: s.reverse.take 28 ++ List.replicate 64 '0').take 64
+
+theorem padSha_len (x : Bytes) : (padSha x).length = 64 := by simp [padSha]; omega
+
+/-- collision-freeness on an explicit finite list, in decidable form -/
+theorem injOn_of_list (f : Bytes → Str) (l : List Bytes)
+    (h : ∀ x ∈ l, ∀ y ∈ l, f x = f y → x = y) : InjOn f (· ∈ l) := fun x y hx hy e => h x hx y hy e
 
 end Pytask.Hash
